@@ -4,6 +4,7 @@ package net
 
 import (
 	"sync/atomic"
+	"time"
 
 	"github.com/lugu/qiloop/internal/zzverif/sym"
 )
@@ -206,4 +207,56 @@ func C17CloseWhileReplyStalled() {
 	_, open := <-queue
 	sym.Assert(!open, "queue-not-closed")
 	sym.Reach("stalled-close-done")
+}
+
+// C17OneShotCloserWindow: the table is full (10 handlers); an incoming message fires the one-shot
+// handler of slot 0, whose close callback takes time; meanwhile another goroutine registers two
+// handlers (the table grows) and removes the handler of slot 9. Whatever dispatch does around the
+// callback, no handler is offered a message after it was closed (send on a closed queue = panic),
+// every closer runs exactly once and every queue ends up closed.
+func C17OneShotCloserWindow() {
+	s := newZZStream()
+	e := NewEndPoint(s)
+	const n = 10
+	var closerCalls [n + 2]int32
+	queues := make([]chan *Message, n+2)
+	for i := range queues {
+		queues[i] = make(chan *Message, 4)
+	}
+	closerOf := func(i int) Closer { return func(err error) { atomic.AddInt32(&closerCalls[i], 1) } }
+	keepAll := func(hdr *Header) (bool, bool) { return true, true }
+	oneShot := func(hdr *Header) (bool, bool) { return true, false }
+	inCloser := make(chan struct{})
+	sideDone := make(chan struct{})
+	e.MakeHandler(oneShot, queues[0], func(err error) {
+		atomic.AddInt32(&closerCalls[0], 1)
+		close(inCloser)
+		select { // a slow callback: it returns when the side work is done or after a while
+		case <-sideDone:
+		case <-time.After(500 * time.Millisecond):
+		}
+	})
+	for i := 1; i < n; i++ {
+		e.MakeHandler(keepAll, queues[i], closerOf(i))
+	}
+	var removeErr error
+	go func() {
+		defer close(sideDone)
+		<-inCloser
+		e.MakeHandler(keepAll, queues[n], closerOf(n))
+		e.MakeHandler(keepAll, queues[n+1], closerOf(n+1)) // the table grows
+		removeErr = e.RemoveHandler(9)
+	}()
+	s.inject(NewMessage(NewHeader(Reply, 1, 2, 3, 4), nil))
+	sym.Quiesce()
+	<-sideDone
+	sym.Assert(removeErr == nil, "closer-window/remove-failed")
+	e.Close()
+	sym.Quiesce()
+	for i := range closerCalls {
+		sym.Assert(atomic.LoadInt32(&closerCalls[i]) == 1, "closer-exactly-once")
+		for range queues[i] { // terminates only if the queue was closed
+		}
+	}
+	sym.Reach("closer-window-done")
 }
